@@ -122,8 +122,14 @@ LATS = [(1, 4), (10, 40), (20, 120), (100, 400), (1, 300)]
 
 def _env(rng):
     v, s = rng.choice(LATS), rng.choice(LATS[:4])
-    return {'vdef': list(v), 'sdef': list(s), 'i': list(rng.choice([(1, 3), (2, 8), (10, 40)])),
-            'seed': rng.randrange(1 << 30), 'early': rng.random() < 0.2}
+    env = {'vdef': list(v), 'sdef': list(s), 'i': list(rng.choice([(1, 3), (2, 8), (10, 40)])),
+           'seed': rng.randrange(1 << 30), 'early': rng.random() < 0.2}
+    if rng.random() < 0.12:
+        a = rng.randint(50, 600)
+        env['vhold'] = [[a, a + rng.choice([100, 700])]]
+    if rng.random() < 0.08:
+        env['shold'] = [[0, rng.choice([150, 500])]]
+    return env
 
 
 def gen_structured(rng, nwf, epochs, exits, maxnop):
@@ -216,7 +222,7 @@ def gen_random(rng, i, big=False):
     return sc, early
 
 
-def fixed_scenarios():
+def fixed_scenarios(thorough=False):
     """Hand-written cases: the probe of DESIGN.md section 7 in both orders, completion back-pressure, occupancy."""
     nops = ['nop'] * 24
     env = {'vdef': [20, 60], 'sdef': [10, 30], 'i': [2, 5], 'seed': 7}
@@ -235,10 +241,24 @@ def fixed_scenarios():
     # six one-wavefront groups finishing while the dispatcher does not take completions (ToACE holds 4)
     out.append(({'name': 'ace_backpressure', 'kernels': [{'mode': 'table', 'progs': [['gst', 'end']]}] * 1,
                  'wgs': [{'k': 0, 'at': 0}] * 7, 'mem': env, 'vals': True, 'acehold': [[0, 1500]]}, False))
+    # wavefront sampling with a stable prediction: no instruction is simulated, handleWfCompletionEvent ends the
+    # wavefronts and reports the groups; the dispatcher does not take completions for 400 cycles (retry path)
+    out.append(({'name': 'sampled_backpressure', 'sampled': True, 'noemu': True,
+                 'kernels': [{'mode': 'table', 'progs': [['gst', 'end'], ['end'], ['bar', 'end']]}],
+                 'wgs': [{'k': 0, 'at': a} for a in (0, 0, 3, 3, 5, 5, 50)], 'mem': env, 'acehold': [[0, 400]]}, False))
     # full occupancy: 5 groups of 8 wavefronts = 40 wavefronts, barriers in every group
-    p8 = [['lst', 'gst', 'w:0:0', 'bar', 'lld', 'gld', 'w:0:0', 'out', 'bar', 'lld', 'out', 'w:0:0', 'end']] * 8
+    p8 = [['lst', 'gst', 'w:0:0', 'bar', 'lld', 'gld', 'w:0:0', 'out', 'end']] * 8
     out.append(({'name': 'occupancy40', 'kernels': [{'mode': 'table', 'progs': p8}], 'wgs': [{'k': 0, 'at': 0}] * 6,
                  'mem': {'vdef': [30, 200], 'sdef': [10, 30], 'i': [2, 9], 'seed': 3}, 'vals': True}, False))
+    if thorough:
+        # 40 wavefronts with 6 loads each in flight (CU-wide in-flight limit of 512 transactions), the memory side
+        # not taking requests for long windows (back-pressure on ToVectorMem / ToScalarMem)
+        p8s = [['gld'] * 6 + ['sld', 'w:0:0', 'gst', 'gst', 'gst', 'gst', 'lst', 'w:0:0', 'bar', 'gld', 'gld', 'gld', 'gld', 'w:0:0',
+                'out', 'w:0:0', 'end']] * 8
+        out.append(({'name': 'inflight_limit_and_port_backpressure', 'kernels': [{'mode': 'table', 'progs': p8s}],
+                     'wgs': [{'k': 0, 'at': 0}] * 5, 'vals': True,
+                     'mem': {'vdef': [200, 400], 'sdef': [20, 40], 'i': [2, 5], 'seed': 9, 'vhold': [[100, 900], [1500, 2500]],
+                             'shold': [[0, 300]]}}, False))
     # memory still in flight at s_endpgm, long latencies
     out.append(({'name': 'end_with_loads', 'kernels': [{'mode': 'table', 'progs': [['gld', 'gld', 'gst', 'sld', 'end'], ['sld', 'gst', 'end']]}],
                  'wgs': [{'k': 0, 'at': 0}, {'k': 0, 'at': 3}], 'mem': {'vdef': [200, 500], 'sdef': [100, 300], 'i': [2, 5], 'seed': 5},
@@ -433,6 +453,20 @@ def corruptions():
 
 
 # --------------------------------------------------------------------------- the check
+def _est_events(sc):
+    """Rough number of trace lines a scenario produces (emulation + timing), to size the validation chunks."""
+    if sc.get('bench'):
+        return 25000
+    n = 0
+    for w in sc['wgs']:
+        k = sc['kernels'][w['k']]
+        if k['mode'] == 'table':
+            n += sum(80 + 3 * len(p) + 2 * i for i, p in enumerate(k['progs']))
+        else:
+            n += k['nwf'] * (80 + 3 * len(k['body']))
+    return 2 * n
+
+
 def _run_scenarios(ctx, drv, scen, tag):
     sfile = os.path.join(ctx.scratch, 'scen_%s.json' % tag)
     json.dump(scen, open(sfile, 'w'))
@@ -442,6 +476,24 @@ def _run_scenarios(ctx, drv, scen, tag):
         raise vlib.Infra('driver failed (%s): %s' % (tag, p.stdout[-2000:]))
     ctx.log('%s: %d scenarios: %s' % (tag, len(scen), stats))
     return t, stats
+
+
+def _run_and_validate(ctx, drv, scen, tag, files, totals, limit=70000):
+    """Run the scenarios and validate their traces, in chunks of about `limit` trace lines (one TLC run each)."""
+    chunk, size, k = [], 0, 0
+    for sc in scen + [None]:
+        if sc is None or (chunk and size + _est_events(sc) > limit):
+            if chunk:
+                t, st = _run_scenarios(ctx, drv, chunk, '%s%d' % (tag, k))
+                _validate(ctx, t, chunk, '%s%d' % (tag, k))
+                files.append(t)
+                for key, v in st.items():
+                    totals[key] = totals.get(key, 0) + v
+                k += 1
+            chunk, size = [], 0
+        if sc is not None:
+            chunk.append(sc)
+            size += _est_events(sc)
 
 
 def _validate(ctx, tfile, scen, tag):
@@ -505,7 +557,8 @@ def selftest_batch(ctx, trace_path, corrs):
     """Binding self-test (same contract as common.selftest_binding, one TLC run): every corrupted copy of an
     accepted timing sub-trace must be refused by the trace specification, otherwise the specification is vacuous."""
     import copy
-    parts = [recs for _, recs in vlib.split_traces(trace_path) if recs[0].get('mode') == 'timing' and len(recs) < 4000]
+    parts = [recs for _, recs in vlib.split_traces(trace_path) if recs[0].get('mode') == 'timing' and len(recs) < 4000
+             and not any(r['e'] == 'Panic' or (r['e'] == 'Quiesce' and r.get('pending', 0) > 0) for r in recs)]
     rng = random.Random(ctx.seed)
     rng.shuffle(parts)
     batch, names = [], []
@@ -518,6 +571,10 @@ def selftest_batch(ctx, trace_path, corrs):
             batch.append(bad)
             break
     if len(names) < 5:
+        if ctx.violations:
+            # the real code already failed on these traces (reported above): there is no accepted trace left to corrupt
+            ctx.notes.append('binding self-test skipped: only %d corruptions applicable to the traces of a failing tree' % len(names))
+            return []
         raise vlib.Infra('binding self-test: only %d corruptions applicable' % len(names))
     p = os.path.join(ctx.scratch, 'selftest.ndjson')
     vlib.write_ndjson(p, [r for recs in batch for r in recs])
@@ -556,7 +613,8 @@ def run(ctx, selftest=False):
     r = ctx.tlc_expect_ok(['cusched'], 'MC_CUSched.tla', 'MC_CUSched_live.cfg', timeout=900, workers=W)
     ctx.log('MC_CUSched_live (every mapped group is eventually reported, under fairness): %d distinct states' % r.distinct)
     if thorough:
-        for cfg in ('MC_CUSched_3wf.cfg', 'MC_CUSched_2wg.cfg', 'MC_CUSched_smallbuf.cfg', 'MC_CUSched_ooo.cfg'):
+        for cfg in ('MC_CUSched_3wf.cfg', 'MC_CUSched_2wg.cfg', 'MC_CUSched_smallbuf.cfg', 'MC_CUSched_ooo.cfg',
+                    'MC_CUSched_sampled.cfg'):
             r = ctx.tlc_expect_ok(['cusched'], 'MC_CUSched.tla', cfg, timeout=3000, workers=W)
             ctx.log('%s: %d distinct states, depth %d' % (cfg, r.distinct, r.depth))
         ctx.cov['exhaustive'] = True
@@ -583,8 +641,8 @@ def run(ctx, selftest=False):
 
     # 2. spec -> code: behaviours of the model become kernels and environments
     scen = []
-    for cfg, nq, nt in (('G22_bal', 12, 100), ('G31_bal', 0, 80), ('G4_bal', 12, 80), ('G3_bal', 0, 80),
-                        ('G22_free', 0, 30), ('G4_free', 3, 30)):
+    for cfg, nq, nt in (('G22_bal', 12, 70), ('G31_bal', 0, 50), ('G4_bal', 12, 60), ('G3_bal', 0, 50),
+                        ('G22_free', 0, 15), ('G4_free', 3, 15)):
         if not (nt if thorough else nq):
             continue
         behs, _ = ctx.simulate(['cusched'], 'CUSchedScen.tla', 'CUSchedScen_%s.cfg' % cfg, num=nt if thorough else nq, depth=120)
@@ -593,38 +651,36 @@ def run(ctx, selftest=False):
     ctx.sample({'scenario_from_TLC_behaviour': {'progs': scen[0]['kernels'][0]['progs'], 'mem': scen[0]['mem']}})
     early_tlc = sum(1 for s in scen for k in s['kernels'] if len({p.count('bar') for p in k['progs']}) > 1)
     ctx.log('%d scenarios from TLC behaviours (%d with wavefronts leaving before a sibling\'s barrier)' % (len(scen), early_tlc))
-    t1, st1 = _run_scenarios(ctx, drv, scen + lead, 'tlc')
-    _validate(ctx, t1, scen + lead, 'tlc')
+    files, tot = [], {}
+    _run_and_validate(ctx, drv, scen + lead, 'tlc', files, tot)
 
     # 3. code -> spec: fixed and seeded scenarios far beyond the model's bounds
-    fixed = fixed_scenarios()
-    nrand = 260 if thorough else 36
-    rnd = [gen_random(rng, i) for i in range(nrand)] + [gen_random(rng, 1000 + i, big=True) for i in range(8 if thorough else 2)]
+    fixed = fixed_scenarios(thorough)
+    nrand = 180 if thorough else 30
+    rnd = [gen_random(rng, i) for i in range(nrand)] + [gen_random(rng, 1000 + i, big=True) for i in range(6 if thorough else 1)]
     # wavefronts that leave before a sibling's barrier hit the open findings on the unchanged tree: their traces are
     # validated separately so that the bulk is validated in one TLC run
     plain = [s for s, e in fixed + rnd if not e]
     early = [s for s, e in fixed + rnd if e]
     if not thorough:
         early = early[:5]
-    t2, st2 = _run_scenarios(ctx, drv, plain, 'plain')
-    _validate(ctx, t2, plain, 'plain')
-    t3, st3 = _run_scenarios(ctx, drv, early, 'early')
-    _validate(ctx, t3, early, 'early')
+    nplain = len(files)
+    _run_and_validate(ctx, drv, plain, 'plain', files, tot)
+    t2 = files[nplain]
+    _run_and_validate(ctx, drv, early, 'early', files, tot)
 
     # 4. system level: the same kernels through Driver -> CP -> dispatcher -> CU of the shipped platforms
     sysc = sys_scenarios(rng, thorough)
-    t4, st4 = _run_scenarios(ctx, drv, [s for s, _ in sysc], 'sys')
-    _validate(ctx, t4, [s for s, _ in sysc], 'sys')
+    _run_and_validate(ctx, drv, [s for s, _ in sysc], 'sys', files, tot)
 
     parts = []
-    for t in (t1, t2, t3, t4):
+    for t in files:
         parts += vlib.split_traces(t)
     distinct = {json.dumps([{k: v for k, v in r.items() if k not in ('seq', 'case')} for r in recs], sort_keys=True)
                 for _, recs in parts}
     nt = sum(1 for _, recs in parts if nontrivial(recs))
     good = next((recs for _, recs in vlib.split_traces(t2) if recs[0].get('mode') == 'timing'), parts[-1][1])
     ctx.sample({'trace_excerpt': good[:14]})
-    tot = {k: st1.get(k, 0) + st2.get(k, 0) + st3.get(k, 0) + st4.get(k, 0) for k in st1}
     ctx.cov.update({'evaluations': len(parts), 'distinct_nontrivial': min(nt, len(distinct)),
                     'events_validated': tot['events'], 'instructions_issued': tot['insts'], 'barrier_issues': tot['barriers'],
                     'waitcnt_issues': tot['waits'], 'memory_instructions': tot['memops'], 'work_groups': tot['wgs'],
@@ -652,6 +708,13 @@ def sys_scenarios(rng, thorough):
         progs = gen_structured(rng, nwf, epochs, {}, rng.choice([0, 6]))
         out.append(({'name': 'sys%d' % i, 'kernels': [{'mode': 'table', 'progs': progs}], 'wgs': [{'k': 0, 'at': 0}] * rng.randint(1, 3),
                      'mem': env, 'vals': True, 'sys': 'r9nano'}, False))
+    # shipped (compiled) kernels with barriers, run by their own host code
+    shipped = [('matrixtranspose', [64])]
+    if thorough:
+        shipped += [('matrixtranspose', [128]), ('matrixmultiplication', [32, 32, 32]), ('nw', [64]), ('stencil2d', [1, 64, 64])]
+    for b, a in shipped:
+        out.append(({'name': 'shipped_%s_%s' % (b, '_'.join(map(str, a))), 'bench': b, 'benchargs': a, 'kernels': [], 'wgs': [],
+                     'mem': env}, False))
     nops = ['nop'] * 24
     out.append(({'name': 'sys_probe_exit_first', 'kernels': [{'mode': 'uniform', 'nwf': 2, 'body': ['xge:1'] + nops + ['bar']}],
                  'wgs': [{'k': 0, 'at': 0}], 'mem': env, 'vals': True, 'sys': 'r9nano'}, True))
